@@ -246,25 +246,33 @@ class MutationOperator:
     def _generic_visit_list(self, old_value: list) -> Generator[tuple[ast.AST, ast.AST, str]]:
         for position, value in enumerate(old_value.copy()):
             if isinstance(value, ast.AST):
-                for (
-                    current_node,
-                    replacement_node,
-                    mutated_node,
-                    visitor_name,
-                ) in self.visit(value):
-                    old_value[position] = mutated_node
-                    yield current_node, replacement_node, visitor_name
-
-                old_value[position] = value
+                # Restore the original element even if the generator is closed
+                # while suspended at the yield (e.g. a consumer stops early).
+                try:
+                    for (
+                        current_node,
+                        replacement_node,
+                        mutated_node,
+                        visitor_name,
+                    ) in self.visit(value):
+                        old_value[position] = mutated_node
+                        yield current_node, replacement_node, visitor_name
+                finally:
+                    old_value[position] = value
 
     def _generic_visit_real_node(
         self, node: ast.AST, field: str, old_value: ast.AST
     ) -> Generator[tuple[ast.AST, ast.AST, str]]:
-        for current_node, replacement_node, mutated_node, visitor_name in self.visit(old_value):
-            setattr(node, field, mutated_node)
-            yield current_node, replacement_node, visitor_name
-
-        setattr(node, field, old_value)
+        # Restore the original child even if the generator is closed while
+        # suspended at the yield (e.g. a consumer stops early).
+        try:
+            for current_node, replacement_node, mutated_node, visitor_name in self.visit(
+                old_value
+            ):
+                setattr(node, field, mutated_node)
+                yield current_node, replacement_node, visitor_name
+        finally:
+            setattr(node, field, old_value)
 
     def _find_visitors(self, node: T) -> list[Callable[[T], ast.AST | None]]:
         node_name = node.__class__.__name__
